@@ -89,6 +89,16 @@ theorem C10_merge_identical_nothing (ff : FFMode) (c : Nat) : mergeDecision ff c
   unfold mergeDecision
   simp
 
+/-- A mode given on the command line is the mode in force, whatever `merge.fastForward` says. -/
+theorem C10_flag_overrides_config (m : FFMode) (config : Option FFMode) : effectiveFF (some m) config = m := rfl
+
+/-- Hence an explicit `--ff` fast-forwards (moves the branch exactly to the other commit) also in a
+    repository configured with `merge.fastForward = never` or `only`. -/
+theorem C10_explicit_ff_fast_forwards (config : Option FFMode) (head other : Nat) (hne : (other != head) = true) :
+    mergeDecision (effectiveFF (some .default_) config) head other head = .fastForward other := by
+  rw [C10_flag_overrides_config, C10_merge_ff_exact _ _ _ hne]
+  rfl
+
 /-- Frame: the decision for one ref is a function of that ref's own old and new value only, so a
     rejection of one ref cannot change the outcome of another in the same operation. -/
 theorem C10_frame (refs : List (Option Nat × Nat × Bool)) (force : Bool) (isAnc : Nat → Nat → Bool) (i : Nat)
